@@ -9,7 +9,12 @@ step of a seeded input sequence, every state attribute, `torch.equal` per sample
   (C) the 4 connection classes with and without heterogeneous learned delays;
   (L) Serial / Biclique / RecurrentSerial layers;
   (T) every trainer with `batch_reduction=torch.sum`: batched accumulator parts == sum over samples of the
-      single-sample parts (1e-9 relative, float64).
+      single-sample parts (1e-9 relative, float64);
+  (S-long) the 4 synapse classes on LONG histories with per-sample activity windows (one sample silent after its first steps, one
+      active throughout, the others starting late / stopping early), short time constants, float64 AND float32: samples whose
+      state differs by the whole dynamic range of the dtype share the batched tensors;
+  (C-wide) the 4 connection classes at presynaptic widths 24 … 1024 (conv: 8x8 … 32x32 images), batch sizes up to 5, with every
+      sample independently blank on a step / starting late, so blank samples sit at any batch index.
 The Lean side (`Model/Batch.lean`, `Props/C11.lean`) is thin — see SPEC assumptions.
 """
 from __future__ import annotations
@@ -49,7 +54,9 @@ SPEC = {
         "(neurons, synapses, records, pointers, spikes, direct connections) and — in the exact-arithmetic half of the connection / layer / trainer "
         "cases (dyadic weights, delta-type synapses) — of everything; where F.linear / einsum / conv sum non-dyadic terms, torch picks different "
         "summation orders for different batch sizes, and floating-point entries downstream are compared to 1e-12 (outputs) / 1e-9 (state) relative",
-        "CPU, float64",
+        "CPU; float64 everywhere except the long-history synapse stream, which alternates float64 and float32 (default dtype at construction)",
+        "wide stream: delayed lateral connections are capped at 64 units and delayed convolutions at 16x16 images (cost of the per-pair history reads); "
+        "undelayed and dense-delayed connections go up to 1024 inputs",
     ],
 }
 
@@ -122,7 +129,8 @@ def add(ex, key, what, case, cap=2):
 def cat(name):
     for pat, c in (("pointer", "pointer"), ("adaptation", "adaptation"), ("voltage", "voltage"), ("refrac", "refrac"),
                    ("spike_", "spike-record"), ("current_", "current-record"), ("syncurrent", "syncurrent"),
-                   ("current", "current"), ("spike", "spike"), ("weight", "weight"), ("feedback", "feedback")):
+                   ("current", "current"), ("spike", "spike"), ("weight", "weight"), ("feedback", "feedback"),
+                   ("forward", "output"), ("output", "output")):
         if pat in name:
             return c
     return "other"
@@ -695,7 +703,11 @@ def explore(ctx) -> Exploration:
                "(± heterogeneous delays on and off the step grid), layer kind and trainer (batch_reduction=sum): a batch-B instance and B separately "
                "constructed batch-1 instances with the same parameters (state_dict) are stepped on the same seeded per-sample inputs; after EVERY "
                "step outputs and all state (buffers, parameters, extras = pointers, derived reads) are compared per sample with torch.equal; trainer "
-               "accumulator parts are compared with the sum of the per-sample parts (1e-9 relative). One evaluation = one compared step; "
+               "accumulator parts are compared with the sum of the per-sample parts (1e-9 relative). Two further streams use the same comparison: "
+               "synapse-long (80-step histories, time constants of 0.5-2 steps, float64 and float32, per-sample activity windows: one sample silent "
+               "after its first 1-3 steps at a random batch index, one active throughout, others late-start / early-stop) and connection-wide "
+               "(presynaptic widths drawn without replacement from 24..1024, conv images 8..32 square, batch 2-5, each sample independently blank "
+               "on a step with probability 0.35 or starting late). One evaluation = one compared step; "
                "non-trivial = activity occurred (spikes / non-zero update parts) and the whole run agreed")
     ex.samples = [{k: v for k, v in f.case.items() if k != "inputs"} for f in ex.findings[:2]] or [{"streams": [n for n, _ in STREAMS]}]
     return ex
